@@ -25,6 +25,7 @@ func floors(c *props.Ctx) {
 	c.R.Floor("HALF-1", 1)
 	c.R.Floor("HALF-2", 1)
 	c.R.Floor("DEQ-2", 1)
+	c.R.Floor("REC-ALL", 5)
 	c.R.Floor("SH-COUNT", 1)
 }
 
